@@ -28,6 +28,30 @@ pub struct Storage {
     oplog: Box<dyn StorageTraits + Send>,
 }
 
+/// Largest number of bytes asked from a store in one read. The disk backend issues a single OS
+/// read per call and does not look at how many bytes it delivered, and the async runtimes cap the
+/// size of one read (tokio: 2 MiB), so a larger request would come back with a zero-filled tail.
+const MAX_READ_LENGTH: u64 = 1024 * 1024;
+
+/// Reads `length` bytes at `offset`, in pieces of at most [MAX_READ_LENGTH] bytes.
+async fn read_in_chunks(
+    storage: &mut Box<dyn StorageTraits + Send>,
+    offset: u64,
+    length: u64,
+) -> Result<Vec<u8>, RandomAccessError> {
+    if length <= MAX_READ_LENGTH {
+        return storage.read(offset, length).await;
+    }
+    let mut buf: Vec<u8> = Vec::with_capacity(length as usize);
+    let mut done: u64 = 0;
+    while done < length {
+        let chunk = std::cmp::min(MAX_READ_LENGTH, length - done);
+        buf.extend_from_slice(&storage.read(offset + done, chunk).await?);
+        done += chunk;
+    }
+    Ok(buf)
+}
+
 pub(crate) fn map_random_access_err(err: RandomAccessError) -> HypercoreError {
     match err {
         RandomAccessError::IO {
@@ -140,7 +164,8 @@ impl Storage {
                         Some(length) => length,
                         None => storage.len().await.map_err(map_random_access_err)?,
                     };
-                    let read_result = storage.read(instruction.index, read_length).await;
+                    let read_result =
+                        read_in_chunks(storage, instruction.index, read_length).await;
                     let info: StoreInfo = match read_result {
                         Ok(buf) => Ok(StoreInfo::new_content(
                             instruction.store.clone(),
